@@ -446,8 +446,8 @@ def part_sort_sites(ctx, eng):
                 continue
             sp = (blk.get('spans') or [None])[-1]
             sites.append((r['name'], bb, callee, sp, f_))
-    if len(sites) < 3:
-        raise Inconclusive('sort sites: only %d calls of a sorting routine found in %s (expected at least 3): the scan is broken' % (len(sites), ', '.join(SORT_FILES)))
+    if not sites:
+        raise Inconclusive('sort sites: no call of a sorting routine found in %s: the scan is broken' % ', '.join(SORT_FILES))
     # two neighbours x, y of equal rank, x first in the input; pos_x / pos_y are their places in the output
     px, py = z3.Int('position_of_the_first_twin'), z3.Int('position_of_the_second_twin')
     perm = [px >= 0, py >= 0, px <= 1, py <= 1, px != py]       # the routine returns a permutation, sorted (vacuous for equal ranks)
